@@ -41,7 +41,13 @@ Verdicts(o) ==
        \cup (IF ~o.case.exact THEN {}
              ELSE IF o.inexact > 0 THEN {Fail("C14", "off-grid", "")}
              ELSE IF o.series = Expected(o) THEN {} ELSE {Fail("C14", "series", "")})
-       \cup (IF o.case.exact \/ Len(o.series) = Len(Expected(o)) THEN {} ELSE {Fail("C14", "count", "")})
+       \cup (IF o.case.exact \/ (Has(o.case, "nocount") /\ o.case.nocount) \/ Len(o.series) = Len(Expected(o)) THEN {} ELSE {Fail("C14", "count", "")})
+       (* every threshold lies inside the criterion's range (the ratio stays in [0,1]) *)
+       \cup (IF \A k \in DOMAIN o.series : \A j \in DOMAIN o.case.lv.criteria :
+                   LET c == CritOf(o.case.lv.criteria[j])
+                       rg == LRange(c, o.case.lv.alternatives)
+                   IN o.series[k][c.id] >= rg.min - 1 /\ o.series[k][c.id] <= rg.max + 1
+             THEN {} ELSE {Fail("C14", "threshold-outside-range", "")})
 
 (* independent lines are validated as independent states (see Trace_Decide) *)
 Init == l = 0 /\ done = FALSE
